@@ -5,7 +5,8 @@
 //     a header X-Delay: <ms> makes it wait that long before it answers (a slow target); the paths
 //     of the requests it has received are kept (TakeServed).
 //   - GrpcTarget: the examples/grpc/server service + reflection whose interceptor returns the
-//     status code named by the incoming metadata key x-status.
+//     status code named by the incoming metadata key x-status (after x-delay ms; the x-entry values
+//     of the calls it has received are kept).
 package a18
 
 import (
@@ -178,6 +179,19 @@ func (t *Target) serve(c net.Conn) {
 type GrpcTarget struct {
 	Addr string
 	gs   *grpc.Server
+
+	mu     sync.Mutex
+	served []string
+}
+
+// TakeServed returns the x-entry metadata values of the calls received since the last call (calls
+// without that key are not kept) and forgets them.
+func (g *GrpcTarget) TakeServed() []string {
+	g.mu.Lock()
+	defer g.mu.Unlock()
+	s := g.served
+	g.served = nil
+	return s
 }
 
 func StartGrpc() (*GrpcTarget, error) {
@@ -185,6 +199,16 @@ func StartGrpc() (*GrpcTarget, error) {
 	logger := slog.New(slog.NewTextHandler(io.Discard, nil))
 	g.gs = grpc.NewServer(grpc.UnaryInterceptor(func(ctx context.Context, req interface{}, info *grpc.UnaryServerInfo, handler grpc.UnaryHandler) (interface{}, error) {
 		if md, ok := metadata.FromIncomingContext(ctx); ok {
+			if v := md.Get("x-entry"); len(v) > 0 {
+				g.mu.Lock()
+				g.served = append(g.served, v[0])
+				g.mu.Unlock()
+			}
+			if v := md.Get("x-delay"); len(v) > 0 { // a slow target
+				if d, _ := strconv.Atoi(v[0]); d > 0 && d <= 5000 {
+					time.Sleep(time.Duration(d) * time.Millisecond)
+				}
+			}
 			if v := md.Get("x-status"); len(v) > 0 {
 				n, _ := strconv.ParseUint(v[0], 10, 32)
 				if n != 0 {
